@@ -18,6 +18,7 @@ var Registry = map[string]func(*Ctx){
 	"C10": C10,
 	"C11": C11,
 	"C12": C12,
+	"C13": C13,
 	"C14": C14,
 	"C15": C15,
 	"C16": C16,
